@@ -340,7 +340,7 @@ package xixi_kv
 
 //@ func (*xixi_kv.DB).getNonMergeFileID
 //@   io_effect
-//@   props C06 C07 C02
+//@   props C06 C07 C02 C01 C14
 //@   unshared db
 //@   ensures [absent-marker-reads-zero] old(fs)[fname(dirPath, 0, datafile.MergeFinishedFileSuffix)] == 0 ==> result0 == 0 && result1 == 0
 //@   ensures [no-fs-change] fs == old(fs)
@@ -350,7 +350,7 @@ package xixi_kv
 //@ func (*xixi_kv.DB).loadMergeFiles
 //@   io_effect
 //@   per_return
-//@   props C06 C07 C02 C03
+//@   props C06 C07 C02 C03 C01 C14
 //@   unshared db
 //@   requires [k-adopt] K_adopt(db)
 //@   let D = db.options.DirPath
@@ -513,7 +513,7 @@ package xixi_kv
 //@ pred mergeOutOlder(m, h) = forall id :: {m.olderFiles[id]} has(m.olderFiles, id) ==> fresh(m.olderFiles[id]) && fresh(m.olderFiles[id].ReadWriter) && m.olderFiles[id] != h && dyn(m.olderFiles[id].ReadWriter) != dyn(h.ReadWriter) && arr(m.olderFiles[id].headerBuf) != arr(h.headerBuf)
 
 //@ func (*xixi_kv.DB).Merge
-//@   props C06 C18 C04 C09 C07 C03
+//@   props C06 C18 C04 C09 C07 C03 C16 C01 C14
 //@   ownership
 //@   io_effect
 //@   per_return
@@ -522,6 +522,11 @@ package xixi_kv
 //@   ensures [unlocked]  !db.mu.heldW && !db.mu.heldR
 //@   ensures [not-merging] !db.isMerging || old(db.isMerging)
 //@   ensures [live-mapping-untouched] db.index.model == old(db.index.model) && db.index.count == old(db.index.count)
+// thread-modular form of "Merge preserves the invariant" (monitor rule): whoever acquires db.mu finds the invariant
+// (assumed at Merge's own acquisitions: it is what every other function proves at its releases), and Merge proves it
+// again at each of its releases, except on the path where the rotation failed with an I/O error
+//@   at (*sync.RWMutex).Lock assume [the-invariant-holds-when-the-lock-is-acquired] arg0 == db.mu ==> INV_db(db) && ACC(db) && posOK(db)
+//@   at (*sync.RWMutex).Unlock assert [the-invariant-holds-when-the-lock-is-released] arg0 == db.mu && (!called("(*xixi_kv.DB).sync") || result_of("(*xixi_kv.DB).sync") == nil) ==> INV_db(db) && ACC(db) && posOK(db)
 //@   at (*xixi_kv.DB).appendLogRecord assert [rewritten-as-plain] arg0 == mergeDB && arg1.BatchID == 0 && arg1 == result_of("(*datafile.DataReader).NextLogRecord", 0)
 //@   at (*xixi_kv.DB).appendLogRecord assume [byte-counters-do-not-overflow] arg0.totalSize <= 4611686018427387904
 //@   at (*xixi_kv.DB).appendLogRecord assert [live-only] result_of("(*index.ShardedIndex).Get") != nil && result_of("(*index.ShardedIndex).Get").Fid == result_of("(*datafile.DataReader).NextLogRecord", 1).Fid && result_of("(*index.ShardedIndex).Get").BlockID == result_of("(*datafile.DataReader).NextLogRecord", 1).BlockID && result_of("(*index.ShardedIndex).Get").Offset == result_of("(*datafile.DataReader).NextLogRecord", 1).Offset
